@@ -179,6 +179,10 @@ def run_shard(exe, prop, tier, seed, shard, nshards, workdir, timeout, extra_arg
             break
         if rc in (0, 1) and report and report.get('complete'):
             break
+        # terminated from outside (SIGTERM / SIGKILL: an operator, the OOM killer): not an observation about the library
+        if rc in (-15, -9):
+            res.inconclusive = 'driver was terminated from outside (signal %d)' % -rc
+            break
         # abnormal termination: sanitizer abort, signal, leak report at exit ...
         key = crash_key(stderr_text, rc)
         if report and report.get('complete'):
